@@ -143,7 +143,9 @@ func (r *Run) Floor(rule, what string, count, min int) {
 // Analysed counts units looked at (functions, cases, call sites, paths ...).
 func (r *Run) Analysed(what string, n int) { r.analysed[what] += n }
 
-func (r *Run) Note(format string, a ...interface{}) { r.Notes = append(r.Notes, fmt.Sprintf(format, a...)) }
+func (r *Run) Note(format string, a ...interface{}) {
+	r.Notes = append(r.Notes, fmt.Sprintf(format, a...))
+}
 
 type evidence struct {
 	PropertyID  string                 `json:"property_id"`
